@@ -14,7 +14,12 @@ The state is the model history of the case.
 namespace LanceModel.C17.Driver
 open LanceModel.Util LanceModel.Table LanceModel.C17
 
-abbrev St := Hist
+/-- the model history and the handles remembered by `open` (name ↦ version the handle was opened at) -/
+structure St where
+  hist : Hist
+  handles : List (String × Nat)
+
+def St.init : St := { hist := [], handles := [] }
 
 /-- `parse_nat` of the harness: 1–9 ASCII digits -/
 def parseNat (s : String) : Option Nat :=
@@ -48,6 +53,8 @@ def parsePred (t : List String) : Option Pred :=
 inductive Cmd where
   | op (o : Op)
   | deltas
+  | openH (name : String)
+  | appendVia (name : String) (f : Nat) (rows : List Row)
 
 def parseCmd (line : String) : Option Cmd :=
   match splitTokens line with
@@ -83,6 +90,13 @@ def parseCmd (line : String) : Option Cmd :=
     let mat ← (if mv = "0" then some false else if mv = "1" then some true else none)
     some (.op (.compact t mat))
   | ["deltas"] => some .deltas
+  | ["open", n] => if n = "a" || n = "b" then some (.openH n) else none
+  | [tag, "append", f, rows] =>
+    if tag = "@a" || tag = "@b" then do
+      let f ← (tokVal "f" f) >>= parseNat
+      let rows ← rowsSameWidth rows
+      some (.appendVia (String.ofList (tag.toList.drop 1)) f rows)
+    else none
   | _ => none
 
 def showPRow (r : PRow) : String :=
@@ -118,7 +132,7 @@ def showDeltas (h : Hist) : String :=
 
 /-- an upsert the model would commit that inserts two or more rows: the interpreter rejects it on both sides (the order
     in which the real join emits several unmatched source rows, and with it which fresh row id each gets, is hash-dependent) -/
-def multiInsert (s : St) (op : Op) : Bool :=
+def multiInsert (s : Hist) (op : Op) : Bool :=
   match s, op with
   | m :: _, .upsert rows =>
     (match (LanceModel.C17.step s op).2 with
@@ -126,17 +140,29 @@ def multiInsert (s : St) (op : Op) : Bool :=
      | .err _ => false) && decide (1 < (upsertNew m.frags rows).length)
   | _, _ => false
 
+def runOp (s : St) (op : Op) : St × String :=
+  if multiInsert s.hist op then (s, "err multi_insert") else
+  match LanceModel.C17.step s.hist op with
+  | (h', .ok) =>
+    match h' with
+    | m :: _ => ({ s with hist := h' }, showManifest m)
+    | [] => ({ s with hist := h' }, "err model")
+  | (h', .err k) => ({ s with hist := h' }, "err " ++ k)
+
 def step (s : St) (line : String) : St × String :=
   match parseCmd line with
   | none => (s, "err parse")
-  | some .deltas => if s.isEmpty then (s, "err no_table") else (s, showDeltas s)
-  | some (.op op) =>
-    if multiInsert s op then (s, "err multi_insert") else
-    match LanceModel.C17.step s op with
-    | (s', .ok) =>
-      match s' with
-      | m :: _ => (s', showManifest m)
-      | [] => (s', "err model")
-    | (s', .err k) => (s', "err " ++ k)
+  | some .deltas => if s.hist.isEmpty then (s, "err no_table") else (s, showDeltas s.hist)
+  | some (.openH n) =>
+    match s.hist with
+    | [] => (s, "err no_table")
+    | m :: _ => ({ s with handles := (n, m.version) :: s.handles.filter (fun e => e.1 != n) }, "ok open v=" ++ toString m.version)
+  | some (.appendVia n f rows) =>
+    if s.hist.isEmpty then (s, "err no_table")
+    else
+      match s.handles.lookup n with
+      | none => (s, "err no_handle")
+      | some rv => runOp s (.appendVia rv f rows)
+  | some (.op op) => runOp s op
 
 end LanceModel.C17.Driver
